@@ -71,6 +71,8 @@ def _grid_aff(lin, kaff):
 
 
 def check(ix, rep):
+    from sa.rules import round11 as _r11
+    rep.floor('functions of the monitors scanned for rounded bounds', _r11.check_no_rounding(ix, rep), 50)
     mons = {m.kind: m for m in M.standard_monitors(ix)}
     disc, dense = mons['discrete-offline'], mons['dense-offline']
     dd, dn = D.dispatch_of(ix, disc.cls), D.dispatch_of(ix, dense.cls)
